@@ -290,6 +290,7 @@ func (u *universe) id(br blob.Ref) int { return u.byID[br] }
 // ---------------------------------------------------------------- one run
 
 type incarnation struct {
+	once  sync.Once
 	plan  *gate.Plan
 	src   *srcSto
 	dstM  *dstSto
@@ -344,8 +345,7 @@ func (r *run) start(ph *Phase) bool {
 	ld := &loader{m: map[string]blobserver.Storage{"/src/": inc.src}}
 	died := func(err error) bool {
 		if inc.plan.Frozen() {
-			r.fl.drain()
-			r.mark("crash")
+			r.noteCrash(inc)
 			return false
 		}
 		fatal(fmt.Errorf("run %d: starting an incarnation failed although nothing was frozen: %v", r.scn.ID, err))
@@ -402,7 +402,15 @@ func (r *run) start(ph *Phase) bool {
 	return true
 }
 
-// crashed notes (once) that the current incarnation's plan froze.
+// noteCrash writes the crash mark of an incarnation whose plan froze: once, and after every lower-layer
+// call that started before the freeze has logged its effect.
+func (r *run) noteCrash(inc *incarnation) {
+	inc.once.Do(func() {
+		r.fl.drain()
+		r.mark("crash")
+	})
+}
+
 func (r *run) crashed() bool {
 	inc := r.cur
 	if inc == nil {
@@ -411,8 +419,7 @@ func (r *run) crashed() bool {
 	if !inc.plan.Frozen() {
 		return false
 	}
-	r.fl.drain()
-	r.mark("crash")
+	r.noteCrash(inc)
 	r.cur = nil
 	return true
 }
@@ -426,7 +433,7 @@ func (r *run) kill() {
 }
 
 // upload sends one blob the way the server's upload handler does.
-func (r *run) upload(inc *incarnation, id int) {
+func (r *run) upload(inc *incarnation, id int) bool {
 	_, err := blobserver.Receive(context.Background(), inc.src, r.u.refs[id], bytes.NewReader(r.u.data[id]))
 	res := "ok"
 	if err != nil {
@@ -435,7 +442,11 @@ func (r *run) upload(inc *incarnation, id int) {
 			fatal(fmt.Errorf("run %d: upload of %d failed although nothing was injected on the upload path: %v", r.scn.ID, id, err))
 		}
 	}
+	if inc.plan.Frozen() {
+		r.noteCrash(inc) // the process died during (or right after) this upload: the client learns the outcome later
+	}
 	r.lg.Emit(gate.Event{"ev": "ack", "b": id, "res": res})
+	return err == nil
 }
 
 func (r *run) delivered(id int) string {
@@ -525,20 +536,10 @@ func (r *run) await(cond func() bool, wd time.Duration) bool {
 }
 
 func (r *run) uploadNote(inc *incarnation, id int) {
-	n0 := r.lg.Len()
-	r.upload(inc, id)
-	_ = n0
-	// acknowledged iff the last ack line of this blob says ok
-	evs := r.lg.Events()
-	for i := len(evs) - 1; i >= 0; i-- {
-		if evs[i]["ev"] == "ack" && evs[i]["b"] == id {
-			if evs[i]["res"] == "ok" {
-				ackMu.Lock()
-				r.acked[id] = true
-				ackMu.Unlock()
-			}
-			break
-		}
+	if r.upload(inc, id) {
+		ackMu.Lock()
+		r.acked[id] = true
+		ackMu.Unlock()
 	}
 }
 
@@ -600,9 +601,6 @@ func (r *run) exec() {
 			// let the incarnation work until it dies at its crash point, or has nothing left to do
 			r.await(func() bool { return r.allDelivered() && r.queueEmpty() }, watchdog/2)
 			r.calls = append(r.calls, inc.plan.Calls())
-			for id := range r.ackedSnapshot() {
-				_ = id
-			}
 			if !r.crashed() {
 				r.kill()
 			}
@@ -738,42 +736,6 @@ func runOne(scn *Scn) []int {
 	return r.calls
 }
 
-// expand runs a scenario: once with every crash placed after the phase settled, then once per lower-layer
-// call of every phase marked "sweep".
-func expand(scn *Scn, sem chan struct{}, wg *sync.WaitGroup) {
-	base := *scn
-	base.Phases = append([]Phase(nil), scn.Phases...)
-	for i := range base.Phases {
-		if base.Phases[i].Crash != "at" {
-			base.Phases[i].Freeze = 0
-		}
-	}
-	calls := runOne(&base)
-	for i := range scn.Phases {
-		if scn.Phases[i].Crash != "sweep" || i >= len(calls) {
-			continue
-		}
-		for k := 1; k <= calls[i]; k++ {
-			s := *scn
-			s.Phases = append([]Phase(nil), scn.Phases...)
-			for j := range s.Phases {
-				if s.Phases[j].Crash != "at" {
-					s.Phases[j].Freeze = 0
-				}
-			}
-			s.Phases[i].Freeze = k
-			s.Phases[i].Crash = "at"
-			wg.Add(1)
-			sem <- struct{}{}
-			go func(s Scn) {
-				defer wg.Done()
-				defer func() { <-sem }()
-				runOne(&s)
-			}(s)
-		}
-	}
-}
-
 func fatal(err error) {
 	fmt.Fprintln(os.Stderr, "c19:", err)
 	os.Exit(2)
@@ -897,8 +859,6 @@ func main() {
 		sem <- struct{}{}
 		go func(s *Scn) {
 			defer wg.Done()
-			<-sem // expansion itself holds no slot while its children run
-			sem <- struct{}{}
 			expandHolding(s, sem, &wg)
 		}(s)
 	}
